@@ -73,6 +73,23 @@ def run(case, ctx):
                                 f"window col {wc[c]}, aggregate col {ac[c]}")
         if len({repr(x) for x in ac[c]}) > 1:
             varies = True
+    # the same call with positional arguments (in the order aggregate declares them): window still is "aggregate joined back"
+    import inspect
+    order = [p_ for p_ in inspect.signature(S.Table.aggregate).parameters if p_ not in ("self",)]
+    if order and order[0] == "over" and all(k_ in order for k_ in kw) and kw:
+        last = max(order.index(k_) for k_ in kw)
+        pos = [over_arg] + [kw.get(p_) for p_ in order[1:last + 1]]
+        ctx.ev()
+        try:
+            wp, ap = t.window(*pos), t.aggregate(*pos)
+        except Exception as e:  # noqa: BLE001
+            return ctx.fail(f"window/positional-call-raised/{type(e).__name__}", f"{order[:last + 1]}: {e}")
+        if list(wp.column_names()) != list(w.column_names()) or list(ap.column_names()) != list(a.column_names()):
+            return ctx.fail("window/positional-arguments-mean-something-else",
+                            f"keyword call gives window {w.column_names()} / aggregate {a.column_names()}, the positional call ({order[:last + 1]}) "
+                            f"window {wp.column_names()} / aggregate {ap.column_names()}")
+        if [[freeze(x) for x in c] for c in wp.cols()] != [[freeze(x) for x in c] for c in w.cols()]:
+            return ctx.fail("window/positional-call-values-differ", f"{order[:last + 1]}")
     # single built-ins against the reference model (does not rely on aggregate being right)
     for f, idx in case["aggs"].items():
         for j in idx:
